@@ -79,7 +79,7 @@ func (s *subtreeRun) fail(sig, format string, a ...any) {
 	}
 	s.fails = append(s.fails, OracleFailure{Property: "C16", Signature: sig,
 		Detail: fmt.Sprintf(format, a...) + " | scenario: " + strings.Join(script, " ; "),
-		Case: subtreeCase{Family: strings.TrimPrefix(s.c.Family, "subtree-"), Idx: s.c.Idx, Seed: s.c.Seed, Wide: s.c.Wide}})
+		Case:   subtreeCase{Family: strings.TrimPrefix(s.c.Family, "subtree-"), Idx: s.c.Idx, Seed: s.c.Seed, Wide: s.c.Wide}})
 }
 
 // subtreeValid is the definition of a valid subtree written from the draft
@@ -278,7 +278,6 @@ func (s *subtreeRun) build(q *subtreeReq) (body []byte, hash [32]byte, noteBytes
 	}
 	return []byte(b.String()), hash, noteBytes
 }
-
 
 // subtreeClassify classifies a sign-subtree body the way processSignSubtreeRequest reads it.
 func subtreeClassify(body []byte) (form string, start, end int64, hash [32]byte, proof [][32]byte, noteBytes []byte) {
